@@ -1,5 +1,5 @@
 (* C12 — closures live exactly as long as the call that passed them. *)
-From Verif Require Import Base Link LinkProofs Closure.
+From Verif Require Import Base Link LinkProofs LinkInvB LinkInvC Closure.
 
 (* every way a call leaves (normal return, error, cancel, link end, panic path) releases its closure *)
 Theorem closure_released_on_return :
@@ -37,3 +37,19 @@ Theorem other_closures_stay_invocable :
   forall t id id', id <> id' -> call_closure (release t id) id' = call_closure t id'.
 Proof. intros t id id' H. unfold call_closure, release. rewrite lookupN_removeN_other; auto. Qed.
 Print Assumptions other_closures_stay_invocable.
+
+(* over ALL reachable states: the table holds exactly the closures of the closure-passing calls
+   that are in flight (registered and not yet returned / on their panic path), without duplicates *)
+Theorem closure_table_exact :
+  forall calls s, lreachable fixed calls s ->
+    NoDup (closures s) /\
+    forall i, In i (closures s) <-> (holding (tget (threads s) (TCall i)) = true /\ passes calls i = true).
+Proof. exact InvC_reachable. Qed.
+Print Assumptions closure_table_exact.
+
+(* hence: no call in flight => no closure registered *)
+Theorem closures_empty_when_idle :
+  forall calls s, lreachable fixed calls s ->
+    (forall i, holding (tget (threads s) (TCall i)) = false) -> closures s = [].
+Proof. exact closures_empty_when_idle_lemma. Qed.
+Print Assumptions closures_empty_when_idle.
